@@ -21,6 +21,9 @@ remove(axis=..)) - each on its own copy of the state.  Oracles on every transiti
      copy()/copy.copy()/deepcopy(), and the genotyping outputs) is mutated by every axis-specific mutating operation
      while the source and the operand must stay bit-identical, and the source is mutated while the earlier result
      must stay bit-identical (run wherever result and source share array memory)
+ (i) index types: at every initial state the same logical position / index list is passed to select, delete/remove,
+     insert/incorp and reorder (axis-specific and generic, mutating and not) as python int, numpy.int64 / int32 /
+     intp scalar, list, tuple, int64 and int32 ndarray; every documented form must give the reference result
  (h) argument forms: adjoin/append/insert/incorp with the operand as matrix object or raw ndarray crossed with
      every single label keyword override, all overrides together and omitted names - an explicit keyword wins,
      otherwise the operand's own labels are used
@@ -1063,6 +1066,119 @@ def argform_check(ctx, D, node, history):
 
 
 # ------------------------------------------------------------------------------------------------------------------
+# index-type forms: the same logical index as python int / numpy integer scalars / list / tuple / int64 / int32 array
+_SCALAR_TYPES = ("int", "numpy.int64", "numpy.int32", "numpy.intp")
+
+
+def _int_types(i):
+    return [("int", i), ("numpy.int64", numpy.int64(i)), ("numpy.int32", numpy.int32(i)), ("numpy.intp", numpy.intp(i))]
+
+
+def _seq_types(L):
+    return [("list", list(L)), ("tuple", tuple(L)), ("int64-array", numpy.array(L, dtype="int64")),
+            ("int32-array", numpy.array(L, dtype="int32"))]
+
+
+def indextype_check(ctx, D, node, history):
+    """Every documented way of writing the same index must give the reference result: positions of insert/incorp and
+    delete/remove as python int or numpy integer scalar ("int"), as list / tuple / integer ndarray ("Sequence of
+    ints"); select indices as list / tuple / ndarray ("array_like"); reorder indices as list / ndarray.  The
+    operands are provenance coded (a 2 x 2 block is not symmetric), so a transposed insertion is visible.
+    Terminal checks (the successor states are those of the ordinary alphabet)."""
+    ref = node.ref
+    for kind in D.kinds:
+        ops = OPS_BY_KIND[kind]
+        if not ops:
+            continue
+        sfx = R.SUFFIX[kind]
+        n = ref.n(kind)
+        gax = D.axes_of(kind)[-1] - D.ndim
+        jobs = []        # (abstract op, type name, [(method, mutating, call(t, operand))])
+        rev = list(range(n - 1, -1, -1))
+        for tn, v in _seq_types(rev):
+            jobs.append(({"kind": kind, "op": "select", "arg": rev}, tn,
+                         [("select" + sfx, False, lambda t, o, v=v: getattr(t, "select" + sfx)(v)),
+                          ("select", False, lambda t, o, v=v: t.select(v, axis=gax))]))
+            if "reorder" in ops and tn != "tuple":
+                jobs.append(({"kind": kind, "op": "reorder", "arg": rev}, tn,
+                             [("reorder" + sfx, True, lambda t, o, v=v: getattr(t, "reorder" + sfx)(v)),
+                              ("reorder", True, lambda t, o, v=v: t.reorder(v, axis=gax))]))
+        if n > 1:
+            for i in (0, n - 1):
+                for tn, v in _int_types(i) + (_seq_types([i]) if i else []):
+                    jobs.append(({"kind": kind, "op": "delete", "arg": i if tn in _SCALAR_TYPES else [i]}, tn,
+                                 [("delete" + sfx, False, lambda t, o, v=v: getattr(t, "delete" + sfx)(v)),
+                                  ("delete", False, lambda t, o, v=v: t.delete(v, axis=gax)),
+                                  ("remove" + sfx, True, lambda t, o, v=v: getattr(t, "remove" + sfx)(v)),
+                                  ("remove", True, lambda t, o, v=v: t.remove(v, axis=gax))]))
+        for which, p in (("B", 0), ("A", n)):
+            for tn, v in _int_types(p) + _seq_types([p]):
+                scalar = tn in _SCALAR_TYPES
+                jobs.append(({"kind": kind, "op": "insert", "arg": p if scalar else [p], "operand": which}, tn,
+                             [("insert" + sfx, False, lambda t, o, v=v: getattr(t, "insert" + sfx)(v, o)),
+                              ("insert", False, lambda t, o, v=v: t.insert(v, o, axis=gax)),
+                              ("incorp" + sfx, True, lambda t, o, v=v: getattr(t, "incorp" + sfx)(v, o)),
+                              ("incorp", True, lambda t, o, v=v: t.incorp(v, o, axis=gax))]))
+        base_fail = {}       # (logical op, method) -> failure kind of the ordinary index type (int / list)
+        for op, tn, calls in jobs:
+            try:
+                ref2 = ref.apply(op)
+            except (ValueError, IndexError):
+                continue
+            case = {"cls": D.name, "init": node.init, "history": list(history), "seed": D.seed,
+                    "op": dict(op, indextype=tn)}
+            root = {}
+            for meth, mutating, call in calls:
+                if not hasattr(D.cls, meth):
+                    continue
+                F = Form(meth, D.sig(meth), "", mutating, None)
+                operand = build(D, operand_ref(ref, kind, op["operand"]), operand=True) if op.get("operand") else None
+                target = clone(D, node.obj) if mutating else node.obj
+
+                def run(call=call, target=target, operand=operand, mutating=mutating):
+                    r = call(target, operand)
+                    check_ref(D, target if mutating else r, _ref_for_form(ref2, ref, kind, Form("", "", "", mutating, None, free=(op["op"] == "reorder")), op),
+                              "", opkind=kind)
+
+                res = run_guarded(F, run)
+                ctx.transitions += 1
+                ctx.evaluations += 1
+                ctx.count(f"indextype:{tn}")
+                if not mutating and state_key(D, node.obj) != node.key:
+                    res = res or (":self-mutated", "a non-mutating operation changed the matrix it was called on")
+                    node.obj = build(D, ref)
+                is_root = mutating not in root
+                bkey = (repr(sorted(op.items())), meth)
+                if tn in ("int", "list"):
+                    base_fail[bkey] = None if res is None else res[0]
+                if res is None:
+                    ctx.traces += 1
+                    if is_root:
+                        root[mutating] = (None, None)
+                    continue
+                fkind, detail = res
+                if D.scaled and not F.base.startswith(D.name + ".") and fkind in (":data", ":shape"):
+                    if kind == "taxa":
+                        ctx.count(f"deferred-to-C15:{D.name}.{meth}{fkind}")
+                        if is_root:
+                            root[mutating] = (fkind, None)
+                        continue
+                    sig = f"{D.name}:inherited-{kind}-axis-method{fkind}"
+                elif fkind.startswith("@"):
+                    sig = fkind[1:]
+                elif tn in ("int", "list") or base_fail.get(bkey) == fkind:
+                    sig = F.base + fkind      # fails for the ordinary index type too: not an index-type matter
+                else:                                           # the index type is the failing input class
+                    sig = F.base + ":index-type=" + ("numpy-integer-scalar" if tn in _SCALAR_TYPES else
+                                                    "integer-ndarray" if tn.endswith("array") else tn)
+                if is_root:
+                    root[mutating] = (fkind, sig)
+                elif root[mutating][0] == fkind and root[mutating][1]:
+                    sig = root[mutating][1]
+                ctx.violation(sig, f"[{D.name}.{meth}(index given as {tn})] " + detail, case)
+
+
+# ------------------------------------------------------------------------------------------------------------------
 # genotyping protocols as terminal single operations
 GT_PROTOS = (("DenseMaskedPhasedGenotyping", False), ("DenseMaskedPhasedGenotyping", True),
              ("DenseMaskedUnphasedGenotyping", False), ("DenseMaskedUnphasedGenotyping", True),
@@ -1166,6 +1282,7 @@ def explore_shard(ctx, D, inits, depth, nmax, part=None, do_live=True, gt=False,
             genotyping(ctx, D, node, h)
         if depth >= 1 and len(h) == 0:
             argform_check(ctx, D, node, h)
+            indextype_check(ctx, D, node, h)
         r = node.ref
         for k in D.kinds:
             if k != "other" and r.n(k) == 1:
@@ -1393,6 +1510,8 @@ def finalize(ctx, tier, seed):
             assert f"alias:{name}" in ctx.flags, ("aliasing oracle never saw shared memory", name)
         if D.fields:
             assert any(k.startswith(f"argform:{name}:") and k.endswith(":matrix") for k in c), ("no keyword-override form", name)
+    for tn in ("int", "numpy.int64", "numpy.int32", "numpy.intp", "list", "tuple", "int64-array", "int32-array"):
+        assert c.get(f"indextype:{tn}", 0) > 0, ("index type never exercised", tn)
         if D.fields:       # duplicated labels; an absent optional label array; no label arrays at all
             assert f"profile:{name}:dup" in ctx.flags, name
             assert any(f.startswith(f"profile:{name}:no_") for f in ctx.flags), name
@@ -1428,5 +1547,7 @@ def replay(case, ctx):
         alias_check(ctx, D, node, tuple(hist))
     elif "argform" in op:
         argform_check(ctx, D, node, tuple(hist))
+    elif "indextype" in op:
+        indextype_check(ctx, D, node, tuple(hist))
     else:
         step(ctx, D, node, op, tuple(hist), do_live=True)
